@@ -25,6 +25,7 @@ import pyrtma.compilers.javascript as JSC
 import pyrtma.compilers.matlab as MLC
 from engine.standins import NullLogger
 from engine.shadow import NoTracing
+from engine import realinit
 from harness.common import sh, set_shard, verdict, reached  # noqa: F401
 
 
@@ -90,12 +91,9 @@ STUBS = ["open() in the four compiler modules -> in-memory capture", "subprocess
 
 
 def bare_parser(import_coredefs=False):
-    p = object.__new__(P.Parser)
-    p.included_files, p.debug = [], False
+    p = realinit.parser(P, validate_alignment=True, auto_pad=True, import_coredefs=import_coredefs)
     p.current_file = pathlib.Path("/defs/user.yaml")
     p.root_path = pathlib.Path("/defs")
-    p.validate_alignment, p.auto_pad, p.import_coredefs = True, True, import_coredefs
-    p.logger = NullLogger()
     p.clear()
     p.current_file = pathlib.Path("/defs/user.yaml")
     return p
